@@ -74,6 +74,16 @@ func (w *World) maxDebt(p *Product, in int64) int64 {
 	return in * pIn * w.Decs[p.DebtD] * p.MinCr.Den / den
 }
 
+// headroom = ceiling - published minted total of the product (what the handlers compare with); boundary generator only.
+func (w *World) headroom(p *Product) int64 {
+	d, _ := w.App.VaultKeeper.GetAppExtendedPairVaultMappingData(w.Ctx, w.App1, p.ID)
+	m := int64(0)
+	if !d.TokenMintedAmount.IsNil() {
+		m = i64(d.TokenMintedAmount)
+	}
+	return clampPos(p.Ceiling - m)
+}
+
 func clampPos(x int64) int64 {
 	if x < 0 {
 		return 0
@@ -145,6 +155,10 @@ func (w *World) randomAct(rng *sim.Rng) Act {
 		default:
 			a.Y = small[rng.Intn(len(small))]
 		}
+		if rng.Intn(6) == 0 { // debt-ceiling boundary: the published headroom of the product -1 / 0 / +1, with ample collateral
+			a.Y = jit(w.headroom(&p))
+			a.X = 20000
+		}
 	case "Deposit", "Withdraw", "Draw", "Repay", "Close", "DepositDraw", "InterestCalc":
 		v, ok := pickVault(rng.Intn(8) != 0) // sometimes somebody else's vault
 		if !ok {
@@ -179,6 +193,9 @@ func (w *World) randomAct(rng *sim.Rng) Act {
 			a.X = jit(w.maxDebt(p, v.in) - debt)
 			if rng.Intn(3) == 0 {
 				a.X = small[rng.Intn(len(small))]
+			}
+			if rng.Intn(5) == 0 { // debt-ceiling boundary
+				a.X = jit(w.headroom(p))
 			}
 		case "Repay":
 			switch rng.Intn(5) {
